@@ -217,6 +217,19 @@ func createLastInsertIDResult(lastInsertID uint64, asName string) *mysql.Result 
 	return ret
 }
 
+// isShardTableToken looks a table token up the way the parser-based Checker does: the
+// table name in lower case (the router stores it so) and the schema as written or in lower case.
+func isShardTableToken(rt *router.Router, db, table string) bool {
+	table = strings.ToLower(table)
+	if rt.GetRule(db, table) != rt.GetDefaultRule() {
+		return true
+	}
+	if lower := strings.ToLower(db); lower != db {
+		return rt.GetRule(lower, table) != rt.GetDefaultRule()
+	}
+	return false
+}
+
 func CheckUnshardBase(tokenId int, tokens []string, rt *router.Router, db string) (string, bool) {
 	ruleDB := db
 	tokensLen := len(tokens)
@@ -235,7 +248,7 @@ func CheckUnshardBase(tokenId int, tokens []string, rt *router.Router, db string
 			ruleDB = dbName
 		}
 		// if table in shard rule, is shard plan
-		if rt.GetRule(ruleDB, strings.ToLower(tableName)) != rt.GetDefaultRule() {
+		if isShardTableToken(rt, ruleDB, tableName) {
 			return ruleDB, false
 		}
 	}
@@ -260,7 +273,7 @@ func CheckUnshardInsert(tokens []string, rt *router.Router, db string) (string, 
 			ruleDB = dbName
 		}
 		// if table in shard rule, is shard plan
-		if rt.GetRule(ruleDB, strings.ToLower(tableName)) != rt.GetDefaultRule() {
+		if isShardTableToken(rt, ruleDB, tableName) {
 			return ruleDB, false
 		}
 	}
@@ -283,7 +296,7 @@ func CheckUnshardUpdate(tokens []string, rt *router.Router, db string) (string, 
 			ruleDB = dbName
 		}
 		// if table in shard rule, is shard plan
-		if rt.GetRule(ruleDB, strings.ToLower(tableName)) != rt.GetDefaultRule() {
+		if isShardTableToken(rt, ruleDB, tableName) {
 			return ruleDB, false
 		}
 	}
